@@ -2,9 +2,27 @@
 through generated standard-mode C + lib/c/bitproto.c, little-endian build against Spec, and
 the -DBP_BIG_ENDIAN build on this x86 host against the model at (BE, LE) (tie of the BE paths)."""
 import cside
+import vlib
+
+
+def _stream(ck, name, fn):
+    """one C stream; a stream that cannot be evaluated is a broken tie but must not hide the others"""
+    try:
+        return fn()
+    except vlib.Broken as b:
+        ck.broken(vlib.Broken(f"C14 C runtime stream {name}: {b.what}", b.detail))
+        return {"error": b.what}
 
 
 def run_c14_c(ck, pairs, make_cases):
+    # C14's proof step builds the closure of props/C14.v; when a proof in it no longer builds (the
+    # translated GenC.v changed), the executable C model must still be rebuilt against the CURRENT
+    # translation before any case file is evaluated (CCase depends on CRt/CBeExact/GenC only)
+    ok, log = vlib.coq_build(["theories/CCase.vo"])
+    if not ok:
+        ck.broken(vlib.Broken("the executable C model (coq/theories/CRt.v, CCase.v) does not build against the "
+                              "current translation coq/gen/GenC.v", log[-2500:]))
+        return
     items = []
     for t, k in pairs:
         for s, vals, origin in make_cases(t, k):
@@ -14,11 +32,13 @@ def run_c14_c(ck, pairs, make_cases):
     # array (alias of an array used as array element; every row width that meets a fast-path
     # threshold) or is an ALIAS of a narrow int used as array element
     import cboundary
-    be = cside.run_schemas(ck, True, items, "c14be", want_spec=False)
+    be_items = items
     items = items + cboundary.items_of(ck.seed, cboundary.c_catalogue(ck.seed, ("rows", "narrow")), n_values=3, junk=0)
-    le = cside.run_schemas(ck, False, items, "c14le")
-    bx = cside.run_schemas(ck, True, cboundary.items_of(ck.seed, cboundary.be_exact_catalogue(ck.seed, ck.quick), n_values=3,
-                                                        junk=0, host="BE"), "c14bx", host="BE")
+    le = _stream(ck, "LE build vs Spec", lambda: cside.run_schemas(ck, False, items, "c14le"))
+    be = _stream(ck, "BE build on LE host vs model", lambda: cside.run_schemas(ck, True, be_items, "c14be", want_spec=False))
+    bx = _stream(ck, "BE build on BE storage vs Spec", lambda: cside.run_schemas(
+        ck, True, cboundary.items_of(ck.seed, cboundary.be_exact_catalogue(ck.seed, ck.quick), n_values=3, junk=0, host="BE"),
+        "c14bx", host="BE"))
     ck.coverage["tie"]["c_runtime_be_build_be_storage_vs_spec"] = bx
     ck.coverage["tie"]["c_runtime_le"] = le
     ck.coverage["tie"]["c_runtime_be_build_on_le_host"] = be
